@@ -10,7 +10,8 @@ spec/rdma/MC_RDMA*.cfg      exhaustive model checking of the routing / payload /
 spec/rdma/RDMAScen.tla      behaviours -> environment scenarios replayed on real rdma.Comp instances
 spec/rdma/RDMATrace.tla     raw port-event traces of the real components checked against RDMA
 harness/cmd/c18             driver: 1..4 real rdma.Comp back to back, scripted L1/L2/peer/control sides;
-                            -platform: the engines inside the real timing platforms, with the address tables the builders gave them
+                            -platform: the engines inside the real timing platforms, with the address tables the builders gave them;
+                            -sysrun: listens on the RDMA ports of real multi-GPU timing runs of shipped workloads
 
 Part 2 (multi-GPU result independence at system level) is added by defining
 run_system(ctx) below; run() calls it when present.
@@ -300,7 +301,7 @@ def run_rdma(ctx):
     if thorough:
         r = ctx.tlc_expect_ok(['rdma'], 'MC_RDMA.tla', 'MC_RDMA_live.cfg', workers=vlib.NCPU, timeout=3000)
         ctx.log('MC_RDMA_live (2 requests, 1 drain): %d distinct states' % r.distinct)
-        for cfg in ('MC_RDMA_drain2.cfg', 'MC_RDMA_one.cfg', 'MC_RDMA_big.cfg'):
+        for cfg in ('MC_RDMA_drain2.cfg', 'MC_RDMA_one.cfg', 'MC_RDMA_three.cfg', 'MC_RDMA_big.cfg'):
             r = ctx.tlc_expect_ok(['rdma'], 'MC_RDMA.tla', cfg, workers=vlib.NCPU, timeout=3000)
             ctx.log('%s: %d distinct states, depth %d' % (cfg, r.distinct, r.depth))
         ctx.cov['exhaustive'] = True
@@ -337,18 +338,32 @@ def run_rdma(ctx):
     ctx.log('engines of the real platforms (%s): %s' % (plats, stats3))
     if stats3.get('steps_skipped') and not stats3.get('panics'):
         ctx.notes.append('platform probe: %d scripted steps did not apply' % stats3['steps_skipped'])
+    # 3c. listen on the RDMA ports of real multi-GPU timing runs of shipped workloads (real engine, real caches,
+    #     real PCIe network: every environment event of the trace is produced by real components)
+    if thorough:
+        sysl = ('vectoradd:r9nano:2:64,vectoradd:r9nano:4:64,matrixtranspose:r9nano:2:64,matrixtranspose:r9nano:4:64,'
+                'fir:r9nano:2:1024,fir:r9nano:4:2048,vectoradd:mi300a:2:64,fir:mi300a:2:1024')
+    else:
+        sysl = 'vectoradd:r9nano:2:16,fir:r9nano:2:1024'
+    t4 = os.path.join(ctx.scratch, 'trace_sys.ndjson')
+    args4 = ['-sysrun', sysl, '-out', t4]
+    stats4 = drive(ctx, drv, args4, 'sysrun')
+    ctx.log('RDMA ports of real multi-GPU timing runs (%s): %s' % (sysl, stats4))
+    ctx.cov['system_runs_listened_to'] = sysl.split(',')
+    stats2 = {k: stats2.get(k, 0) + stats4.get(k, 0) for k in set(stats2) | set(stats4)}
+
     # one TLC start validates all recorded traces (concatenated; every trace starts with its Reset line)
     tall = os.path.join(ctx.scratch, 'trace_all.ndjson')
     with open(tall, 'w') as f:
-        for t in (t1, t2, t3):
+        for t in (t1, t2, t3, t4):
             f.write(open(t).read())
     n_ok = common.validate_and_triage(ctx, TSPEC, tall, {'cmd': 'c18', 'runs': [{'scenarios': scen}, {'args': args[:-1]},
-                                                                               {'args': args3[:-1]}]})
+                                                                               {'args': args3[:-1]}, {'args': args4[:-1]}]})
     ctx.log('trace validation: %d traces accepted' % n_ok)
     ctx.cov['platform_configurations'] = plats.split(',')
     stats2 = {k: stats2.get(k, 0) + stats3.get(k, 0) for k in set(stats2) | set(stats3)}
 
-    parts = vlib.split_traces(t1) + vlib.split_traces(t2) + vlib.split_traces(t3)
+    parts = vlib.split_traces(t1) + vlib.split_traces(t2) + vlib.split_traces(t3) + vlib.split_traces(t4)
     distinct = {json.dumps([{k: v for k, v in r.items() if k != 'seq'} for r in recs], sort_keys=True) for _, recs in parts}
     nt = sum(1 for _, recs in parts if nontrivial(recs))
     ctx.sample({'trace_excerpt': [{k: v for k, v in r.items() if k != 'seq'} for r in parts[-1][1][:8]]})
